@@ -167,8 +167,12 @@ def load_order_shard(orders, ref_items):
         acc.evaluations += 1
         acc.nontrivial += 1
         reset_memo()
-        for v in order:
-            parso.load_grammar(version=v)
+        try:
+            for v in order:
+                parso.load_grammar(version=v)
+        except Exception as e:
+            acc.fail(('load_grammar-raises',) + core.exc_sig(e), {'history': [['load', 0, x] for x in order]}, repr(e))
+            continue
         for v in order:
             for c in (('parse', 1, v), ('errors', 4, v), ('tokenize', 2, v)):
                 if c in ref and norm(do_call(c)) != ref[c]:
@@ -185,12 +189,16 @@ def fp_shard(name, n, versions, shard_no, nshards, batch):
     import parso.python.pep8
     from parso.parser import ParserSyntaxError
     acc = _acc()
-    gs = {v: parso.load_grammar(version=v) for v in versions}
-    for g in gs.values():     # warm-up: first-use memoisation happens here
-        m = g.parse('a=1\n')
-        list(g.iter_errors(m))
-        g._get_normalizer_issues(m)
-        list(g._tokenize('a'))
+    try:
+        gs = {v: parso.load_grammar(version=v) for v in versions}
+        for g in gs.values():     # warm-up: first-use memoisation happens here
+            m = g.parse('a=1\n')
+            list(g.iter_errors(m))
+            g._get_normalizer_issues(m)
+            list(g._tokenize('a'))
+    except Exception as e:
+        acc.fail(('warm-up-call-raises',) + core.exc_sig(e), {'text': 'a=1\n', 'version': versions[0]}, repr(e))
+        return acc.strip()
     f0 = fingerprint()[0]
 
     def run_one(t, v):
@@ -277,9 +285,9 @@ def sched_shard(names, v, start, ks, two=None):
     import parso
     from ..sched import Execution
     acc = _acc()
-    g = parso.load_grammar(version=v)
     bodies = [make_body(n, v) for n in names]
     try:
+        parso.load_grammar(version=v)
         for b in bodies:
             b()                       # warm grammar, token collection, rule instances
         seq = [('ok', norm(b())) for b in bodies]
